@@ -1,10 +1,10 @@
 """C11 - parser output depends only on the bytes; data prints (%j) and parses back.
 
-One jsim run = a few cases; one case = one source text: the reference (one byte at a time through parser/byte with the
-canonical driver protocol) and ~8 delivery schedules (chunk boundaries, delivering API,
-interleaved observers, drain now/later, clone = checkpoint/restore, fresh parser after a flushed
-error).  The comparison is done inside the Janet script (c11_janet.py); the history carries the
-mismatches and a summary.  Texts come from c11_gen.py."""
+One jsim run = a few cases; one case = one source text: the reference (one byte at a time
+through parser/byte with the canonical driver protocol) and ~8 delivery schedules (chunk
+boundaries, delivering API, interleaved observers, drain now/later, clone = checkpoint/restore,
+fresh parser after a flushed error).  The comparison is done inside the Janet script
+(c11_janet.py); the history carries the mismatches and a summary.  Texts come from c11_gen.py."""
 import json
 import random
 
@@ -57,7 +57,7 @@ class C11(Driver):
     prop = "C11"
     level = "exploration"
     flavours = ["asan"]
-    rule = ("plan = one source text (grammar output with deliberate errors / values printed with %j by Janet / random "
+    rule = ("plan = 2..4 cases; case = one source text (grammar output with deliberate errors / values printed with %j by Janet / random "
             "bytes) x ~8 delivery schedules (chunk boundaries incl. splits inside tokens, escapes, long-string "
             "delimiters, UTF-8 sequences and CR LF; parser/consume with/without index, parser/byte; interleaved "
             "status/has-more/where/state; drain now, later or partially; clone and continue on the clone with the "
